@@ -1,36 +1,77 @@
-// C20 driver: interpreter of array-object histories (resize / write / copy / assign) over ndarray_t kinds and layouts.
+// C20 driver: interpreter of array-object histories (resize / write / copy / assign / cast) over ndarray_t kinds and
+// layouts and over the legacy classes fixed_ndarray / hybrid_ndarray / dynamic_ndarray.
 #include "verif/driver.hpp"
 #include "verif/arrays.hpp"
 #include "nmtools/array/ndarray.hpp"
+#include "nmtools/utility/cast.hpp"
 #include <optional>
 #include <algorithm>
 
 using namespace verif;
 namespace ix = nmtools::index;
 
-template <class A, bool CanResize> struct machine {
+// access to the parts of an array object that differ between ndarray_t and the legacy classes
+template <class A> struct parts {
+    static const long* buf(const A& a) { return a.data(); }
+    static vj::value ostrides(const A& a) { return vj::value(shape_vec(a.offset_.strides_)); }
+    static bool resize(A& a, const std::vector<size_t>& s) { return a.resize(s); }
+};
+template <size_t... S> struct parts<na::fixed_ndarray<long, S...>> {
+    using A = na::fixed_ndarray<long, S...>;
+    static const long* buf(const A& a) { return reinterpret_cast<const long*>(&a.data[0]); }   // nested raw array: contiguous
+    static vj::value ostrides(const A& a) { return vj::value(shape_vec(a.strides())); }
+    static bool resize(A&, const std::vector<size_t>&) { return false; }          // no resize member
+};
+template <size_t M, size_t D> struct parts<na::hybrid_ndarray<long, M, D>> {
+    using A = na::hybrid_ndarray<long, M, D>;
+    static const long* buf(const A& a) { return a.data(); }
+    static vj::value ostrides(const A& a) { return vj::value(shape_vec(a.strides())); }
+    static bool resize(A& a, const std::vector<size_t>& s) {
+        if (s.size() != D) return false;                                          // the dimension is part of the type: another dimension is not expressible
+        std::array<size_t, D> t{}; for (size_t i = 0; i < D; i++) t[i] = s[i];
+        return a.resize(t);
+    }
+};
+template <> struct parts<na::dynamic_ndarray<long>> {
+    using A = na::dynamic_ndarray<long>;
+    static const long* buf(const A& a) { return a.data.data(); }
+    static vj::value ostrides(const A& a) { return vj::value(shape_vec(a.strides())); }
+    static bool resize(A& a, const std::vector<size_t>& s) { a.resize(s); return true; }   // returns void: always accepted
+};
+
+template <class A, bool CanResize, bool CanCastD = true> struct machine {
     A obj; std::optional<A> cpy;
+    using P = parts<A>;
 
     static std::vector<size_t> idx_of(const std::vector<long>& shp, long k) {
         std::vector<size_t> s(shp.begin(), shp.end()), r(s.size());
         for (long i = (long)s.size() - 1; i >= 0; i--) { r[i] = (size_t)k % s[i]; k /= (long)s[i]; }
         return r;
     }
+    // element by logical position (a fixed-size index where the dimension is part of the type: the legacy classes accept nothing else)
+    template <class AA> static decltype(auto) ref_at(AA& a, const std::vector<long>& shp, long k) {
+        [[maybe_unused]] constexpr auto FD = meta::fixed_dim_v<A>;
+        if constexpr (!meta::is_fail_v<decltype(FD)>) {
+            std::array<size_t, (size_t)FD> idx{}; auto v = idx_of(shp, k);
+            for (size_t i = 0; i < idx.size() && i < v.size(); i++) idx[i] = v[i];
+            return nm::apply_at(a, idx);
+        } else return nm::apply_at(a, idx_of(shp, k));
+    }
     static void fill(A& a, long step) {
         auto shp = shape_vec(nm::shape(a)); long n = 1; for (auto x : shp) n *= x;
-        for (long p = 0; p < n; p++) nm::apply_at(a, idx_of(shp, p)) = 100 * step + p;
+        for (long p = 0; p < n; p++) ref_at(a, shp, p) = 100 * step + p;
     }
     static vj::value proj_one(const A& a) {
         auto shp = shape_vec(nm::shape(a)); long n = 1; for (auto x : shp) n *= x;
         std::vector<long> el, buf;
         bool sane = n >= 0 && n <= 4096;
-        if (sane) for (long p = 0; p < n; p++) el.push_back((long)nm::apply_at(a, idx_of(shp, p)));
+        if (sane) for (long p = 0; p < n; p++) el.push_back((long)ref_at(a, shp, p));
         long sz = (long)nm::size(a);
-        if (sane && sz == n) { for (long p = 0; p < n; p++) buf.push_back((long)a.data()[p]); }
+        if (sane && sz == n) { for (long p = 0; p < n; p++) buf.push_back((long)P::buf(a)[p]); }
         auto se = el, sb = buf; std::sort(se.begin(), se.end()); std::sort(sb.begin(), sb.end());
         vj::value r = vj::value::object();
         r.set("live", true).set("shape", vj::value(shp)).set("dim", (long)nm::dim(a)).set("size", sz).set("elems", vj::value(el))
-         .set("perm", se == sb).set("strides", vj::value(shape_vec(a.strides()))).set("ostrides", vj::value(shape_vec(a.offset_.strides_)));
+         .set("perm", se == sb).set("strides", vj::value(shape_vec(a.strides()))).set("ostrides", P::ostrides(a));
         return r;
     }
     vj::value proj() {
@@ -44,22 +85,39 @@ template <class A, bool CanResize> struct machine {
         long id = c["id"].as_int();
         auto init = c["init"].as_vec<size_t>();
         bool ok0 = true;
-        if constexpr (CanResize) ok0 = obj.resize(init);
+        if constexpr (CanResize) ok0 = P::resize(obj, init);
         fill(obj, 0);
         { vj::value b = vj::value::object(); b.set("e", "begin").set("id", id).set("kind", c["kind"]).set("layout", c["layout"]).set("ret", ok0).set("proj", proj()); evs.push(b); }
         const auto& h = c["h"];
         for (size_t k = 0; k < h.size(); k++) {
             const auto& a = h[k]; std::string op = a["op"].as_str(); bool ret = true; long step = (long)k + 1;
             if (op == "resize") {
-                if constexpr (CanResize) { ret = obj.resize(a["shape"].as_vec<size_t>()); if (ret) fill(obj, step); }
+                if constexpr (CanResize) { ret = P::resize(obj, a["shape"].as_vec<size_t>()); if (ret) fill(obj, step); }
                 else ret = false;
-            } else if (op == "write") { auto shp = shape_vec(nm::shape(obj)); nm::apply_at(obj, idx_of(shp, a["k"].as_int())) = a["v"].as_int(); }
+            } else if (op == "write") { auto shp = shape_vec(nm::shape(obj)); ref_at(obj, shp, a["k"].as_int()) = a["v"].as_int(); }
             else if (op == "copy") cpy.emplace(obj);
             else if (op == "assign") *cpy = obj;
             else if (op == "assign_back") obj = *cpy;
-            else if (op == "write_copy") { auto shp = shape_vec(nm::shape(*cpy)); nm::apply_at(*cpy, idx_of(shp, a["k"].as_int())) = a["v"].as_int(); }
+            else if (op == "write_copy") { auto shp = shape_vec(nm::shape(*cpy)); ref_at(*cpy, shp, a["k"].as_int()) = a["v"].as_int(); }
             else if (op == "drop_copy") cpy.reset();
             vj::value s = vj::value::object();
+            if (op == "cast_dtype") {
+                std::string t = a["t"].as_str();
+                auto obs = [&](const auto& r) { auto p = project(r); vj::value o = vj::value::object(); o.set("shape", p["shape"]).set("elems", p["elems"]); return o; };
+                // (an element-type cast of an ndarray_t over a bounded buffer does not compile: replace_element_type has no case for static_vector - a loud limitation)
+                if constexpr (CanCastD) {
+                    if (t == "f64") s.set("obs", obs(nm::cast<double>(obj)));
+                    else if (t == "f32") s.set("obs", obs(nm::cast<float>(obj)));
+                    else if (t == "i8") s.set("obs", obs(nm::cast<int8_t>(obj)));
+                    else if (t == "u8") s.set("obs", obs(nm::cast<uint8_t>(obj)));
+                    else if (t == "i16") s.set("obs", obs(nm::cast<int16_t>(obj)));
+                }
+            } else if (op == "cast_kind") {
+                std::string kd = a["k"].as_str();
+                auto obs = [&](const auto& r) { auto p = project(r); vj::value o = vj::value::object(); o.set("shape", p["shape"]).set("elems", p["elems"]); return o; };
+                if (kd == "dynamic") s.set("obs", obs(nm::cast(obj, na::kind::dynamic)));
+                else if (kd == "nd_dyn") s.set("obs", obs(nm::cast<na::ndarray_t<std::vector<long>, std::vector<size_t>>>(obj)));
+            }
             s.set("e", "step").set("id", id).set("k", (long)k).set("act", a).set("ret", ret).set("proj", proj());
             evs.push(s);
         }
@@ -73,7 +131,7 @@ template <template <class...> class Off> static vj::value by_kind(const vj::valu
     using fb = std::array<L, 6>; using bb = nmtools_static_vector<L, 6>; using db = std::vector<L>;
     using ds = std::vector<S>; using fs = std::array<S, 2>; using bs = nmtools_static_vector<S, 2>;
     using cs = nmtools_tuple<meta::ct<2>, meta::ct<3>>; using ks = nmtools_array<nm::clipped_size_t<3>, 2>;
-    #define RUN(B, SH, R) { machine<na::ndarray_t<B, SH, na::resolve_stride_type_t, Off>, R> m; return m.run(c); }
+    #define RUN(B, SH, R) { machine<na::ndarray_t<B, SH, na::resolve_stride_type_t, Off>, R, !std::is_same_v<B, bb>> m; return m.run(c); }
     if (kind == "dyn_dyn") RUN(db, ds, true)
     if (kind == "fixbuf_dyn") RUN(fb, ds, true)
     if (kind == "boundbuf_dyn") RUN(bb, ds, true)
@@ -89,6 +147,10 @@ template <template <class...> class Off> static vj::value by_kind(const vj::valu
     return crash_res("unknown kind " + kind);
 }
 static vj::value handle(const vj::value& c) {
+    std::string kind = c["kind"].as_str();
+    if (kind == "legacy_fixed") { machine<na::fixed_ndarray<long, 2, 3>, false> m; return m.run(c); }
+    if (kind == "legacy_hybrid") { machine<na::hybrid_ndarray<long, 6, 2>, true> m; return m.run(c); }
+    if (kind == "legacy_dynamic") { machine<na::dynamic_ndarray<long>, true> m; return m.run(c); }
     if (c["layout"].as_str() == "F") return by_kind<na::column_major_offset_t>(c);
     return by_kind<na::row_major_offset_t>(c);
 }
